@@ -8,6 +8,7 @@ CONSTANTS
   GapToks = {}
   Ignorables = {}
   MaxGaps = 0
+  LaxRows = FALSE
   PkgVary = "none"
 CONSTRAINT GapBound
 INVARIANTS PrefixOK Sorted Refines Dump
